@@ -291,6 +291,14 @@ pub fn scenario(seed: u64, opts: &Opts) -> Made {
                     1 => s2.txt = wire::txt_encode(&[(b"id".to_vec(), Some(b"new".to_vec()))]),
                     _ => s2.v4 = vec![[10, 0, 0, 200 + i as u8]],
                 }
+                // sometimes the old port / properties come back within a second of the update (a device toggling a
+                // state twice, or a stale copy overtaken on the way): both records stay live, the one received last
+                // counts. The address changes as well, so that its displacement a second later makes the daemon
+                // report the instance again.
+                let echo = !toggled_back && (s2.port != s.port || s2.txt != s.txt) && rng.chance(1, 3);
+                if echo {
+                    s2.v4 = vec![[10, 0, 0, 200 + i as u8]];
+                }
                 resp.svcs[i] = s2.clone();
                 if share_host {
                     // hosts are shared: keep the address sets of the other services in line
@@ -310,7 +318,23 @@ pub fn scenario(seed: u64, opts: &Opts) -> Made {
                     w.run_until_cb(until, &mut cb);
                 }
                 send(&mut w, &s2.announce(), &mut rng);
-                desc.push_str(&format!(" @{t}:{}update{}{i}", if quick { "quick-" } else { "" }, if toggled_back { "-back" } else { "" }));
+                if echo {
+                    let mut e = s2.clone();
+                    e.port = s.port;
+                    e.txt = s.txt.clone();
+                    let d = 20 + rng.below(900);
+                    let mut cb = |w: &mut World| resp.react(w, h);
+                    let until = w.now() + d;
+                    w.run_until_cb(until, &mut cb);
+                    send(&mut w, &e.announce(), &mut rng);
+                    resp.svcs[i] = e;
+                }
+                desc.push_str(&format!(
+                    " @{t}:{}update{}{}{i}",
+                    if quick { "quick-" } else { "" },
+                    if toggled_back { "-back" } else { "" },
+                    if echo { "-and-back-within-a-second" } else { "" }
+                ));
             }
             5 | 6 => {
                 resp.gone[i] = true;
